@@ -7,6 +7,7 @@ from typing import Any
 from chameleon.config import SOURCE_EXPRESSION_MARKER_LENGTH as LENGTH
 from chameleon.tokenize import Token
 from chameleon.utils import create_formatted_exception
+from chameleon.utils import read_bytes
 from chameleon.utils import safe_native
 
 
@@ -331,17 +332,16 @@ class ExceptionFormatter:
 
             if filename and not filename.startswith('<') and line and column:
                 try:
-                    f = open(filename)
-                except OSError:
+                    # decode the file the way the template was read
+                    with open(filename, 'rb') as f:
+                        source = read_bytes(f.read(), 'utf-8')[0]
+                except (OSError, UnicodeError, LookupError):
                     pass
                 else:
-                    lines = iter_source_marker_lines(
-                        iter(f), expression, line, column
-                    )
-                    try:
-                        out.extend(lines)
-                    finally:
-                        f.close()
+                    source = source.replace('\r\n', '\n').replace('\r', '\n')
+                    out.extend(iter_source_marker_lines(
+                        source.split('\n'), expression, line, column
+                    ))
 
         out.append(" - Arguments:  %s" % "\n".join(formatted_args))
 
